@@ -8,18 +8,25 @@ from lib.engine import TranslateError
 ID = "C02"
 PROPS_MODULE = "AslProps.C02"
 DRIVER = "c02"
-RULE = ("cases = operation histories (insert/overwrite/operator[]/find/has/get/remove/clear/clone/add(merge)/==/set algebra/"
-        "enumeration) over up to 4 containers of each of Map<int,int>, Dic<String>, HashMap<int,int>, HashDic<int>, Set<int>, "
+RULE = ("cases = operation histories (insert/overwrite/operator[]/find/has/get/remove/clear/clone/add(merge, also with itself)/==/set "
+        "algebra/enumeration) over up to 4 containers of each of Map<int,int>, Dic<String>, HashMap<int,int>, HashDic<int>, Set<int>, "
         "Set<String>; key pools: small dense ints, ints congruent mod 256 / 2048 / table size, negative ints, strings with "
         "20-60 byte common prefixes, full-hash-colliding strings built from \"Ab\"/\"BA\" blocks, bytes >= 0x80, the empty "
         "string; exhaustive probe of every key and every gap of ordered maps of sizes 0..6; tables created with 1..64 buckets "
         "so growth thresholds are crossed early, plus histories crossing 225 and 1793 entries; pairs of containers with equal "
-        "contents built in different orders / table sizes / with insert+remove noise, then ==; "
+        "contents built in different orders / table sizes / with insert+remove noise, then ==; `raw` ops print the bucket count and "
+        "the unsorted enumeration of hash containers on both sides; "
         "non-trivial = distinct case with at least one mutation and one observation")
-TRUSTED = ["tools/props/c02.py: generator and python dict/set reference simulation (extra pass)",
-           "harness/c02.cpp: canonicalisation (hash-map enumerations sorted by key; ordered-map enumerations printed in order)"]
+TRUSTED = ["tools/props/c02.py translate(): regex extraction of the hash-table constants (String hash multiplier, HashMap() size, "
+           "rehash fill fraction / factor / slot limit, nextPoT shifts) and shape checks of hash(int), binOf, ASL_HMAP_SKIP from "
+           "include/asl/HashMap.h into lean/Gen/HashMapGen.lean",
+           "tools/props/c02.py: generator, oracle() and python dict/set reference simulation (extra pass)",
+           "harness/c02.cpp: canonicalisation (dump: hash-map enumerations sorted by key; raw: bucket count + enumeration as is; "
+           "ordered-map enumerations printed in order)"]
 ASSUMPTIONS = ["String keys are NUL-free: String::compare is libc strcmp = lexicographic order on unsigned bytes (AslModel.Map.cmpBytes)",
-               "hash(const String&) arithmetic `33*h + p[i]` wraps modulo 2^32 and `char` is signed (AslModel.HashMap.hashBytes); exercised by K",
+               "hash(const String&) arithmetic `hashMul*h + p[i]` wraps modulo 2^32 and `char` is signed (AslModel.HashMap.hashBytes); "
+               "compared with the code through the bucket placement shown by `raw`",
+               "sizeof(AtomicCount) <= sizeof(void*), i.e. ASL_HMAP_SKIP == 2 (checked by the harness in every `raw` op)",
                "Array<T>::insert/remove/clone on an unshared array behave as list insert/erase/copy (C01)",
                "operator new/delete of chain nodes succeed; each HashMap handle is unshared when mutated (C02 does not quantify over shared handles)"]
 SHRINK_KEEP_FIRST = 0
@@ -37,9 +44,7 @@ def _one(rx, src, what):
     return m[0]
 
 
-def translate(repo):
-    """G: the constants of the hash table (hash multiplier, default size, growth rule, nextPoT shifts) are re-read from
-    include/asl/HashMap.h on every run; anything unrecognised is an error, never a default"""
+def _consts(repo):
     src = cparse.read(repo, "include/asl/HashMap.h").replace("\r\n", "\n")
     # hash(int x) must be the identity
     body = cparse.find_function(src, r"inline\s+int\s+hash\s*\(\s*int\s+x\s*\)\s*\{")
@@ -78,6 +83,14 @@ def translate(repo):
     binof = re.sub(r"\s+", "", cparse.find_function(src, r"int\s+binOf\s*\(\s*const\s+K\s*&\s*key\s*\)\s*const\s*\{"))
     if binof != "{return(hash(key)&(a.length()-ASL_HMAP_SKIP-1))+ASL_HMAP_SKIP;}":
         raise TranslateError("binOf has an unrecognised shape: " + binof[:120])
+    return {"mul": mul, "dflt": dflt, "num": num, "den": den, "fac": fac, "max": mx, "shifts": shifts}
+
+
+def translate(repo):
+    """G: the constants of the hash table (hash multiplier, default size, growth rule, nextPoT shifts) are re-read from
+    include/asl/HashMap.h on every run; anything unrecognised is an error, never a default"""
+    c = _consts(repo)
+    mul, dflt, num, den, fac, mx, shifts = c["mul"], c["dflt"], c["num"], c["den"], c["fac"], c["max"], c["shifts"]
     txt = "/- GENERATED by tools/props/c02.py from include/asl/HashMap.h — do not edit -/\nnamespace Gen.HashMap\n\n"
     txt += "/-- multiplier of `hash(const String&)`: `h = hashMul*h + p[i]` -/\ndef hashMul : Int := %d\n" % mul
     txt += "/-- bucket count of `HashMap()` -/\ndef defaultBuckets : Nat := %d\n" % dflt
@@ -186,11 +199,14 @@ def dumps(kind, slots=(0, 1, 2, 3)):
         out.append("%s dump %d" % (kind, s))
         if kind in ORDERED:
             out.append("%s keys %d" % (kind, s))
+        else:
+            out.append("%s raw %d" % (kind, s))
     return out
 
 
 def history(rng, kind, nops, pool=None, news=True):
     cls, keys = pool if pool else pool_for(kind, rng)
+    POOL_STATS[cls] = POOL_STATS.get(cls, 0) + 1
     ops = []
     K = lambda: kstr(kind, rng.choice(keys))
     S = lambda: rng.randrange(0, 2) if rng.random() < 0.8 else rng.randrange(0, 4)
@@ -212,7 +228,8 @@ def history(rng, kind, nops, pool=None, news=True):
             elif r < 0.80: ops.append("%s rem %d %s" % (kind, s, K()))
             elif r < 0.81: ops.append("%s clear %d" % (kind, s))
             elif r < 0.84: ops.append("%s clone %d %d" % (kind, s, S()))
-            elif r < 0.88: ops.append("%s add %d %d" % (kind, s, S()))
+            elif r < 0.87: ops.append("%s add %d %d" % (kind, s, S()))
+            elif r < 0.88: ops.append("%s addself %d" % (kind, s))
             elif r < 0.93: ops.append("%s eq %d %d" % (kind, s, S()))
             elif r < 0.96: ops.append("%s dump %d" % (kind, s))
             elif r < 0.98: ops.append("%s keys %d" % (kind, s))
@@ -229,7 +246,8 @@ def history(rng, kind, nops, pool=None, news=True):
             elif r < 0.84: ops.append("%s clear %d" % (kind, s))
             elif r < 0.88: ops.append("%s clone %d %d" % (kind, s, S()))
             elif r < 0.94: ops.append("%s eq %d %d" % (kind, s, S()))
-            elif r < 0.98: ops.append("%s dump %d" % (kind, s))
+            elif r < 0.96: ops.append("%s dump %d" % (kind, s))
+            elif r < 0.99: ops.append("%s raw %d" % (kind, s))
             else: ops.append("%s len %d" % (kind, s))
         else:
             if r < 0.30: ops.append("%s ins %d %s" % (kind, s, K()))
@@ -238,14 +256,16 @@ def history(rng, kind, nops, pool=None, news=True):
             elif r < 0.56: ops.append("%s clear %d" % (kind, s))
             elif r < 0.59: ops.append("%s clone %d %d" % (kind, s, S()))
             elif r < 0.62: ops.append("%s from %d %s" % (kind, s, " ".join(K() for _ in range(rng.randrange(0, 6)))))
-            elif r < 0.66: ops.append("%s addset %d %d" % (kind, s, S()))
+            elif r < 0.65: ops.append("%s addset %d %d" % (kind, s, S()))
+            elif r < 0.67: ops.append("%s addself %d" % (kind, s))
             elif r < 0.73: ops.append("%s eq %d %d" % (kind, s, S()))
             elif r < 0.78: ops.append("%s cont %d %d" % (kind, s, S()))
             elif r < 0.82: ops.append("%s any %d %d" % (kind, s, S()))
             elif r < 0.86: ops.append("%s union %d %d %d" % (kind, rng.randrange(0, 4), S(), S()))
             elif r < 0.90: ops.append("%s inter %d %d %d" % (kind, rng.randrange(0, 4), S(), S()))
             elif r < 0.94: ops.append("%s diff %d %d %d" % (kind, rng.randrange(0, 4), S(), S()))
-            elif r < 0.98: ops.append("%s dump %d" % (kind, s))
+            elif r < 0.96: ops.append("%s dump %d" % (kind, s))
+            elif r < 0.99: ops.append("%s raw %d" % (kind, s))
             else: ops.append("%s len %d" % (kind, s))
     return ops + dumps(kind)
 
@@ -277,6 +297,7 @@ def equal_contents(rng, kind):
     """two containers with the same contents built in different orders / table sizes / with noise; then == both ways;
     then one perturbation and == again"""
     cls, keys = pool_for(kind, rng)
+    POOL_STATS[cls] = POOL_STATS.get(cls, 0) + 1
     keys = list(dict.fromkeys(kstr(kind, k) for k in keys))
     vals = {k: vstr(kind, rng) for k in keys}
     ops = []
@@ -303,6 +324,8 @@ def equal_contents(rng, kind):
             seq.append("%s rem %d %s" % (kind, s, nk))
             seq.append(put(s, nk))
         ops += seq
+    if kind not in ORDERED:
+        ops += ["%s raw 0" % kind, "%s raw 1" % kind]
     ops += ["%s eq 0 1" % kind, "%s eq 1 0" % kind]
     if kind in SETS:
         ops += ["%s cont 0 1" % kind, "%s cont 1 0" % kind, "%s union 2 0 1" % kind, "%s inter 3 1 0" % kind,
@@ -346,9 +369,14 @@ def growth(rng, kind, n, start=None, removes=0.1):
             live.pop()
         if rng.random() < 0.05:
             ops.append("%s has 0 %s" % (kind, kstr(kind, rng.choice(keys))))
-        if i in (223, 224, 225, 226, 448, 449, 450, 1791, 1792, 1793, 1794, 3584, 3585, 3586) or rng.random() < 0.004:
+        if i in GROWTH_POINTS or rng.random() < 0.004:
             ops.append("%s len 0" % kind)
             ops.append("%s dump 0" % kind)
+            ops.append("%s raw 0" % kind)
+            if kind in SETS:
+                # s << s exactly at / around the fill threshold: rehash() runs inside the enumeration of s itself
+                ops.append("%s addself 0" % kind)
+                ops.append("%s raw 0" % kind)
     ops.append("%s clone 0 1" % kind)
     ops.append("%s eq 0 1" % kind)
     ops.append("%s eq 1 0" % kind)
@@ -360,13 +388,20 @@ def growth(rng, kind, n, start=None, removes=0.1):
         ops.append("%s eq 2 0" % kind)
     for ks in live[: min(len(live), 300)]:
         ops.append("%s rem 0 %s" % (kind, ks))
-    ops += ["%s dump 0" % kind, "%s dump 1" % kind, "%s len 2" % kind]
+    ops += ["%s dump 0" % kind, "%s dump 1" % kind, "%s len 2" % kind, "%s raw 0" % kind, "%s raw 1" % kind]
     return ops
+
+
+# insertion indices around the fill thresholds of tables of 1, 8, 64, 256, 512, 2048, 4096 buckets
+GROWTH_POINTS = frozenset([0, 1, 2, 6, 7, 8, 55, 56, 57, 58, 223, 224, 225, 226, 447, 448, 449, 450,
+                           1791, 1792, 1793, 1794, 3584, 3585, 3586])
+POOL_STATS = {}
 
 
 def gen(rng, tier):
     q = tier == "quick"
     cases = []
+    POOL_STATS.clear()
     # 1. exhaustive probes of ordered maps of sizes 0..6 (every branch of indexOf)
     for kind in ORDERED:
         for n in range(0, 7 if q else 10):
@@ -404,6 +439,126 @@ def nontrivial(case):
     return any(o in MUT for o in ops) and any(o in OBS for o in ops)
 
 
+class _Tbl:
+    """bucket layout of one hash container, re-implemented for the STATISTICS of the evidence only (which chain
+    position a removal hits, how often growth fires, == across table sizes); not used to judge anything"""
+    C = None
+
+    def __init__(self, nb=None):
+        c = _Tbl.C
+        self.nb = c["dflt"] if nb is None else nb
+        self.b = {}
+        self.n = 0
+
+    @staticmethod
+    def hash(k):
+        if isinstance(k, int):
+            return k & 0xffffffff
+        h = 0
+        for ch in k:
+            h = (_Tbl.C["mul"] * h + (ch if ch < 128 else ch - 256)) & 0xffffffff
+        return h
+
+    def enum(self):
+        return [k for i in sorted(self.b) for k in self.b[i]]
+
+    def index(self, k, st):
+        c = _Tbl.C
+        alen = self.nb + 2
+        if not (self.n < alen * c["num"] // c["den"] or alen > c["max"]):
+            ks = self.enum()
+            self.nb *= c["fac"]
+            self.b = {}
+            for x in ks:
+                self.b.setdefault(self.hash(x) & (self.nb - 1), []).append(x)
+            st["rehash_events"] += 1
+            st["rehash_max_buckets"] = max(st["rehash_max_buckets"], self.nb)
+        ch = self.b.setdefault(self.hash(k) & (self.nb - 1), [])
+        if k not in ch:
+            ch.append(k)
+            self.n += 1
+            st["max_chain"] = max(st["max_chain"], len(ch))
+
+    def remove(self, k, st):
+        i = self.hash(k) & (self.nb - 1)
+        ch = self.b.get(i, [])
+        if k not in ch:
+            st["rem_absent"] += 1
+            return
+        p, L = ch.index(k), len(ch)
+        st["rem_single" if L == 1 else "rem_head_with_tail" if p == 0 else "rem_last" if p == L - 1 else "rem_mid"] += 1
+        ch.pop(p)
+        if not ch:
+            del self.b[i]
+        self.n -= 1
+
+    @staticmethod
+    def nextpot(n):
+        p = 1
+        while p < n:
+            p *= 2
+        return p
+
+
+def layout_stats(cases):
+    try:
+        _Tbl.C = _consts(core.REPO)
+    except Exception:
+        _Tbl.C = {"mul": 33, "dflt": 256, "num": 7, "den": 8, "fac": 8, "max": 280000}
+    st = {k: 0 for k in ("rem_head_with_tail", "rem_mid", "rem_last", "rem_single", "rem_absent", "rehash_events",
+                         "rehash_max_buckets", "max_chain", "eq_same_size", "eq_across_sizes", "self_merge",
+                         "self_merge_at_growth_threshold", "raw_observations")}
+    for c in cases:
+        T = {kind: [_Tbl() for _ in range(4)] for kind in HASHED + SETS}
+        for l in c:
+            t = l.split()
+            kind, op = t[0], t[1]
+            if kind not in T:
+                if op == "addself":
+                    st["self_merge"] += 1
+                continue
+            sl = T[kind]
+            s = int(t[2]) % 4
+            a = sl[s]
+            K = (lambda x: int(x)) if kind in INTKEY else (lambda x: core.unhex(x))
+            if op == "new": sl[s] = _Tbl(_Tbl.nextpot(int(t[3])))
+            elif op in ("set", "asg", "idx", "ins"): a.index(K(t[3]), st)
+            elif op == "rem": a.remove(K(t[3]), st)
+            elif op == "clear": a.b = {}; a.n = 0
+            elif op == "clone":
+                nt = _Tbl(_Tbl.nextpot(a.nb))
+                for k in a.enum(): nt.index(k, st)
+                sl[int(t[3]) % 4] = nt
+            elif op == "eq":
+                st["eq_same_size" if a.nb == sl[int(t[3]) % 4].nb else "eq_across_sizes"] += 1
+            elif op == "from":
+                nt = _Tbl()
+                for x in t[3:]: nt.index(K(x), st)
+                sl[s] = nt
+            elif op == "addset":
+                o = _Tbl()
+                for k in sl[int(t[3]) % 4].enum(): o.index(k, st)
+                for k in o.enum(): a.index(k, st)
+            elif op == "addself":
+                st["self_merge"] += 1
+                cc = _Tbl.C
+                if a.n and not (a.n < (a.nb + 2) * cc["num"] // cc["den"] or a.nb + 2 > cc["max"]):
+                    st["self_merge_at_growth_threshold"] += 1
+                for k in a.enum(): a.index(k, st)
+            elif op in ("union", "inter", "diff"):
+                x, y = sl[int(t[3]) % 4], sl[int(t[4]) % 4]
+                ys = set(y.enum())
+                nt = _Tbl()
+                if op == "union":
+                    for k in x.enum() + y.enum(): nt.index(k, st)
+                else:
+                    for k in x.enum():
+                        if (k in ys) == (op == "inter"): nt.index(k, st)
+                sl[s] = nt
+            elif op == "raw": st["raw_observations"] += 1
+    return st
+
+
 def distribution(cases):
     d = {}
     sizes = {"<=10": 0, "11-50": 0, "51-200": 0, "201-1000": 0, ">1000": 0}
@@ -414,12 +569,11 @@ def distribution(cases):
             t = l.split()
             key = t[0] + "." + t[1]
             d[key] = d.get(key, 0) + 1
-    return {"ops_by_kind": d, "case_lengths": sizes, "sim": SIM_STATS}
+    return {"ops_by_kind": d, "case_lengths": sizes, "hash_layout": layout_stats(cases), "key_pool_classes": dict(POOL_STATS)}
 
 
 # ------------------------------------------------------------------ independent reference: python dict / set
 
-SIM_STATS = {}
 
 
 def _k(kind, t):
@@ -460,6 +614,8 @@ def simulate(case):
             elif op == "clone": sl[int(t[3]) % 4] = dict(a); out.append("ok %d" % len(a))
             elif op == "from": sl[s] = {_k(kind, x): 1 for x in t[3:]}; out.append("ok %d" % len(sl[s]))
             elif op == "addset": a.update(dict(sl[int(t[3]) % 4])); out.append("ok %d" % len(a))
+            elif op == "addself": out.append("ok %d" % len(a))
+            elif op == "raw": out.append(("raw", sorted(_ks(kind, k) for k in a)))
             elif op == "eq": out.append("1" if set(a) == set(sl[int(t[3]) % 4]) else "0")
             elif op == "cont": out.append("1" if set(sl[int(t[3]) % 4]) <= set(a) else "0")
             elif op == "any": out.append("1" if set(sl[int(t[3]) % 4]) & set(a) else "0")
@@ -488,6 +644,8 @@ def simulate(case):
         elif op == "clear": a.clear(); out.append("ok 0")
         elif op == "clone": sl[int(t[3]) % 4] = dict(a); out.append("ok %d" % len(a))
         elif op == "add": a.update(dict(sl[int(t[3]) % 4])); out.append("ok %d" % len(a))
+        elif op == "addself": out.append("ok %d" % len(a))
+        elif op == "raw": out.append(("raw", sorted("%s:%s" % (_ks(kind, k), VS(a[k])) for k in a)))
         elif op == "eq": out.append("1" if a == sl[int(t[3]) % 4] else "0")
         elif op == "len": out.append(str(len(a)) + ((" empty" if not a else " nonempty") if ordered else ""))
         elif op == "keys": out.append(" ".join([str(len(a))] + [_ks(kind, k) for k in sorted(a)]))
@@ -496,6 +654,45 @@ def simulate(case):
             out.append(" ".join([str(len(a))] + ["%s:%s" % (_ks(kind, k), VS(a[k])) for k in ks]))
         else: out.append("bad-op")
     return out
+
+
+def line_ok(got, exp):
+    """exp is the exact expected text, or ("raw", sorted entries): the unsorted enumeration must be a permutation of the
+    contents and the bucket count a power of two (the layout itself is the model's business, not the reference's)"""
+    if isinstance(exp, tuple):
+        t = got.split()
+        if not t or not t[0].isdigit():
+            return False
+        nb = int(t[0])
+        return nb >= 1 and nb & (nb - 1) == 0 and sorted(t[1:]) == exp[1]
+    return got == exp
+
+
+def outputs_ok(got, exp):
+    return len(got) == len(exp) and all(line_ok(g, e) for g, e in zip(got, exp))
+
+
+def show_exp(exp):
+    return [e if not isinstance(e, tuple) else "<power-of-two> <any permutation of: %s>" % " ".join(e[1]) for e in exp]
+
+
+def oracle(case, impl, model, crash):
+    """judge a K divergence on the implementation alone.  Lines of `raw` ops expose internals (bucket count, enumeration
+    order): if ONLY those differ between code and model, and the code's own output is still a correct finite map / set
+    according to the python reference, no input violates the property — the model has stopped describing the code."""
+    if crash:
+        return True, "memory error / abnormal termination: %s" % crash
+    got = impl[1:] if impl and impl[0] == "case" else impl
+    try:
+        exp = simulate(case)
+    except Exception as e:  # a shrunk case the simulator cannot read: fall back to the strict verdict
+        return True, "implementation output differs from the model output (reference simulation failed: %r)" % e
+    if not outputs_ok(got, exp):
+        return True, ("implementation output differs from the model output AND from the mathematical finite map / set "
+                      "(python dict/set simulation of the same history)")
+    return False, ("only the internal layout shown by `raw` (bucket count / enumeration order) differs between code and model; the "
+                   "public behaviour is still that of a finite map: correspondence K no longer validates the model's hash, binOf, "
+                   "growth rule or chain order")
 
 
 def extra(ctx):
@@ -524,8 +721,11 @@ def extra(ctx):
             exp = simulate(c)
             got = impl[st[ci] + 1: st[ci] + 1 + len(c)]
             n += min(len(got), len(exp))
-            if got != exp and len(got) == len(exp):
+            if not outputs_ok(got, exp):
+                # a short `got` (crashed / truncated batch) is a failure too: never pass silently
                 bad.append((c, got, exp))
+                if len(got) != len(exp):
+                    break
         return bad, n
 
     with ThreadPoolExecutor(max_workers=nb) as ex:
@@ -540,10 +740,17 @@ def extra(ctx):
     for c, got, exp in fails:
         def bad(cand):
             impl, crash, err = core.run_impl(exe, ["case 0"] + cand, timeout=60)
-            return crash is None and impl[1:] != simulate(cand)
+            return not outputs_ok(impl[1:], simulate(cand))
+        if not bad(c):
+            # the case passes alone: the batch was cut short before/inside it (crash elsewhere); report as it is
+            f = engine.Failure("crash", c, got, ["case"] + show_exp(exp), crash="truncated-output",
+                               clause="harness output for this history was truncated in its batch (%d of %d lines)" % (len(got), len(exp)),
+                               name="reference oracle: python dict/set")
+            out.append(f)
+            continue
         c = ddmin(c, bad)
         impl, crash, err = core.run_impl(exe, ["case 0"] + c, timeout=60)
-        f = engine.Failure("diverge", c, impl, ["case"] + simulate(c),
+        f = engine.Failure("diverge" if crash is None else "crash", c, impl, ["case"] + show_exp(simulate(c)), crash=crash,
                            clause="implementation differs from the mathematical finite map / set (python dict/set simulation of the same history)",
                            name="reference oracle: python dict/set")
         out.append(f)
@@ -577,32 +784,44 @@ def ddmin(case, bad, max_trials=200):
 
 
 TECHNIQUE = ("Lean 4 theorems (binary-search loop invariant, representation invariants preserved by every operation, refinement "
-             "to K -> Option V for an arbitrary hash function) + differential correspondence check + python dict/set reference")
+             "to K -> Option V for an arbitrary hash function, obligations on constants regenerated from HashMap.h) + differential "
+             "correspondence check incl. internal layout + python dict/set reference")
 LEVEL_TEXT = ("Proved in Lean 4, for ALL inputs and histories, about the executable models the driver runs: (1) Map::indexOf, transcribed "
               "literally (do-while, first probe at n-1, encoded result), terminates, reads only inside the array and returns the index of the "
               "key or -(p)-1 with p the unique insertion point, on every strictly ascending array and every key, for any comparison that is "
               "a strict total order (compare<int> and strcmp-on-bytes are proved to be such); (2) every Map/Dic operation (set, operator[], "
-              "m[k]=v, remove, clear, add/merge, find/has/get) keeps the array strictly ascending and acts on the abstract map K->Option V as "
-              "the finite-map operation, for every history (map_refines_finmap); keys()/enumeration strictly ascending, each key once, "
-              "length() = number of distinct keys; == iff equal abstract maps; (3) HashMap/HashDic for an ARBITRARY hash function and any "
-              "positive table size: the invariant (every key in bucket binOf(key), chains duplicate-free, count = number of entries) is "
-              "preserved by operator[], set, remove (repaired d4d2172), clear, rehash and dup/clone; find/has/get walking one chain equal a "
-              "linear search of the whole enumeration; rehash preserves the abstract map; every history refines K->Option V "
-              "(hashmap_refines_finmap); the enumeration lists each entry exactly once and tables with equal contents enumerate permutations "
-              "of each other; operator== (repaired 12cf1de) iff equal abstract maps, whatever the insertion order, bucket sharing or growth; "
-              "(4) Set: insert/remove/Set(Array)/<</+/&/-/contains/containsAny/array()/== are exactly the set operations on membership; "
-              "(5) the pre-fix remove and == violate the specification (counterexample theorems with concrete witnesses, replayed from "
-              "corpus/C02). The models are tied to the current /repo sources by the correspondence check K on every run (histories over 6 "
-              "container types, colliding keys, growth across 225 and 1793 entries, tables from 1 bucket up, sizes 0..6 probed exhaustively), "
-              "under ASan/LSan, plus an independent python dict/set simulation of every history judged on the implementation alone.")
-LEVEL_NOTE = ("Tie is K only (no generated Lean): a code path no generated history reaches is tied to the model only by reading. "
-              "Validated by K only, not theorems: the concrete hash functions hash(int)/hash(String) and nextPoT (the theorems hold for "
-              "every hash function and every positive table size, so their values cannot affect correctness, only bucket placement); the "
-              "growth constants 7/8, x8, 280000 (rehash_preserves_abs holds for whatever condition triggers it); Array<T>::insert/remove/"
-              "clone as list operations (C01); chain nodes' new/delete and the LeakSanitizer verdict; const operator[] default objects; the "
-              "foreach/Enumerator plumbing. Equality/merge theorems for hash maps assume both tables use the same hash function (true for "
-              "one key type). Handles shared between two HashMap objects (copy without clone) are outside C02's quantifier and are not "
-              "generated (rehash through one handle leaves the other stale: DESIGN.md section 6, noted, not a C02 violation). String keys "
-              "are NUL-free (strcmp vs memcmp disagree on embedded NUL; C03 territory). No statement is left partial; "
-              "hashmap_remove_head_counterexample / hashmap_eq_order_counterexample are about transcriptions of the pre-fix code kept in "
-              "AslProps/C02.lean for the record.")
+              "m[k]=v, remove, clear, clone, add/merge also with itself, find/has/get) keeps the array strictly ascending and acts on the "
+              "abstract map K->Option V as the finite-map operation, for every history (map_refines_finmap); keys()/enumeration strictly "
+              "ascending, each key once, length() = number of distinct keys; == iff equal abstract maps; (3) HashMap/HashDic for an "
+              "ARBITRARY hash function and any positive table size: the invariant (every key in bucket binOf(key), chains duplicate-free, "
+              "count = number of entries) is preserved by operator[], set, remove (repaired d4d2172), clear, rehash and dup/clone; "
+              "find/has/get walking one chain equal a linear search of the whole enumeration; rehash preserves the abstract map; every "
+              "history refines K->Option V (hashmap_refines_finmap); the enumeration lists each entry exactly once and tables with equal "
+              "contents enumerate permutations of each other; operator== (repaired 12cf1de) iff equal abstract maps, whatever the insertion "
+              "order, bucket sharing or growth (hashmap_eq_of_histories); (4) Set: every history of insert/remove/clear/clone/Set(Array)/"
+              "<< (also s << s)/+/&/- keeps the table well-formed and has exactly the members of the same history on predicates "
+              "(set_refines); contains/containsAny/array()/== are the set relations on membership; (5) the pre-fix remove and == violate the "
+              "specification (counterexample theorems with concrete witnesses, replayed from corpus/C02). G: the hash-table constants "
+              "(String hash multiplier, default size, growth rule, nextPoT shifts) are regenerated from HashMap.h on every run and the "
+              "obligations gen_constants_ok / nextPoT_is_next_power_of_two are re-proved. K: histories over 6 container types (colliding "
+              "keys, growth across 225 and 1793 entries, tables from 1 bucket up, sizes 0..6 probed exhaustively) under ASan/LSan compare "
+              "public observables AND, through `raw`, bucket count and unsorted enumeration order, so the model's hash functions, binOf, "
+              "rehash rule and chain order are tied to the code on every run; an independent python dict/set simulation judges the "
+              "implementation alone.")
+LEVEL_NOTE = ("The loop/branch structure of the models is tied to the code by K only (no C++ -> Lean extraction); a code path no "
+              "generated history reaches is tied to the model only by reading. The public (sorted) observations cannot depend on the hash "
+              "function, growth rule or chain order (that is what hashmap_refines_finmap says), so those parts of the model are validated "
+              "only by the `raw` observations (bucket count + enumeration order) and by G for the constants; a change there that keeps "
+              "the container a correct finite map is reported as VIOLATION ... no-failing-input-found (model no longer describes the "
+              "code), not as a failing input. HashMap has no merge member: merges are Map::add and Set::operator<<(Set) (both in the "
+              "history theorems, including self-merge). nextPoT: proved least power of two >= n for 1 <= n <= 4096 only; nextPoT(0) "
+              "is 1 in the model but wraps to a 0-bucket table in the code (HashMap(0)/Set(0) index out of range) - outside the 'positive "
+              "table size' all theorems assume, and the generator never passes 0. Validated by K only: Array<T>::insert/remove/clone as "
+              "list operations (C01), chain nodes' new/delete and the LeakSanitizer verdict, const operator[] default objects, the "
+              "foreach/Enumerator plumbing (s << s around the growth threshold runs rehash inside the enumeration of s itself; exercised "
+              "under ASan, modelled as enumerate-then-insert, equal by K). Equality/merge theorems for hash containers assume both tables "
+              "use the same hash function (true for one key type). Handles shared between two HashMap objects (copy without clone) are "
+              "outside C02's quantifier and are not generated. String keys are NUL-free (strcmp vs memcmp disagree on embedded NUL). No "
+              "statement is left partial; hashmap_remove_head_counterexample / hashmap_eq_order_counterexample are about transcriptions of "
+              "the pre-fix code kept in AslProps/C02.lean (their premise - the model's enumeration order is the code's - is what `raw` "
+              "checks).")
